@@ -743,7 +743,13 @@ def _strategy():
     def _msg_spec_factory():
         @st.composite
         def m(draw):
-            cmd = draw(st.sampled_from(["read", "read", "set", "trigger", "wait", "sleep", "custom", "null", "subscribe"]))
+            # "stage"/"unstage", "monitor"/"unmonitor", "wait"/"wait_for": command names contained in one another
+            cmd = draw(
+                st.sampled_from(
+                    ["read", "read", "set", "trigger", "wait", "sleep", "custom", "null", "subscribe"]
+                    + ["stage", "unstage", "monitor", "unmonitor", "wait_for"]
+                )
+            )
             spec = {"cmd": cmd}
             if cmd in ("read", "trigger"):
                 spec["obj"] = draw(st.sampled_from(DEVICES))
@@ -763,7 +769,7 @@ def _strategy():
                     spec["args"] = [g]
             elif cmd == "sleep":
                 spec["args"] = [draw(st.sampled_from([0, 1, 2.5]))]
-            elif cmd == "custom":
+            elif cmd in ("custom", "stage", "unstage", "monitor", "unmonitor", "wait_for"):
                 spec["obj"] = draw(st.sampled_from(DEVICES + [None]))
                 spec["args"] = draw(st.lists(st.sampled_from([0, 1, "x"]), max_size=2))
             elif cmd == "subscribe":
@@ -816,7 +822,7 @@ def _strategy():
         st.just(["always"]),
         st.just(["never"]),
     )
-    all_cmds = ["read", "set", "trigger", "wait", "sleep", "custom", "null", "subscribe"]
+    all_cmds = ["read", "set", "trigger", "wait", "sleep", "custom", "null", "subscribe", "stage", "unstage", "monitor", "unmonitor", "wait_for"]
 
     @st.composite
     def handler(draw, present):  # noqa: C901
